@@ -51,7 +51,7 @@ class C12Access(Machine):
     assumptions = ["/file_metadata (timestamps, script names) excluded; files with zero events are not put "
                    "in FileGenerator lists; total_thrown apportioning is not judged",
                    "every event records particles (a file without particle table cannot be iterated)"]
-    required_counters = ("probe.multi_session", "op.slice", "op.index", "op.filegen", "op.interleave",
+    required_counters = ("seam.file_opens", "probe.multi_session", "op.slice", "op.index", "op.filegen", "op.interleave",
                          "fault.bad_access", "probe.negative_spelling", "probe.step_gt_1",
                          "probe.clock_backwards")
 
@@ -115,7 +115,7 @@ class C12Access(Machine):
         have_b = "B" in self.files
         f = rng.pick(["A", "A", "B", "R"] if have_b else ["A", "A", "A", "R"])
         kinds = [("iterate", 2.0), ("index", 1.5), ("slice", 3.0), ("interleave", 1.0),
-                 ("filegen", 1.5), ("bad_access", 0.8)]
+                 ("filegen", 1.5), ("bad_access", 0.8), ("reader_waveforms", 0.8 if self.opts["waveforms"] else 0.0)]
         if self.cfg["exhaustive"]:
             kinds.append(("all_slices", 1.0))
         k = rng.weighted(kinds)
@@ -138,6 +138,8 @@ class C12Access(Machine):
         if k == "filegen":
             files = [rng.pick(["A", "B", "R"] if have_b else ["A", "R"]) for _ in range(rng.randint(1, 3))]
             return {"op": "filegen", "files": files, "slice_range": rng.pick([1, 2, 3, n, n + 5, 100])}
+        if k == "reader_waveforms":
+            return {"op": "reader_waveforms", "file": f, "i": rng.randint(0, n - 1)}
         if k == "bad_access":
             return {"op": "bad_access", "file": f,
                     "how": rng.pick(["index_high", "index_low", "step0", "step_neg", "slice_oob", "slice_oob_low"]),
@@ -439,6 +441,37 @@ class C12Access(Machine):
             self.nontrivial = True
         return ["filegen", len(events)]
 
+    def _op_reader_waveforms(self, op):
+        """Reader-level waveform access by event id must address that event's rows."""
+        if not self.opts["waveforms"]:
+            raise Skip("waveforms are not written")
+        i = op["i"] % self.n
+        want = self.ref[i]["waveforms"]
+        r = self._open_reader(op["file"])
+        try:
+            st, got = self.sut(lambda: r.get_waveforms(event_id=i), expect=(ValueError,),
+                               where="reader.get_waveforms(event_id)")
+        finally:
+            r.close()
+        if st == "raised":
+            if want not in (None, "not-in-file") and any(len(w) for w in want):
+                raise Violation("C12:reader-waveforms", "get_waveforms(event_id=%d) raised %r but the event "
+                                "has waveforms" % (i, got))
+            return ["reader_waveforms", "none"]
+        rows = [] if want in (None, "not-in-file") else want
+        n_rows = max([len(w) for w in rows], default=0)
+        if len(got) != n_rows:
+            raise Violation("C12:reader-waveforms", "get_waveforms(event_id=%d) returns %d rows, the event has %d"
+                            % (i, len(got), n_rows))
+        for a, per_ant in enumerate(rows):
+            for j, (t, v) in enumerate(per_ant):
+                gt, gv = np.asarray(got[j][a][0], dtype=float), np.asarray(got[j][a][1], dtype=float)
+                if not (np.array_equal(gt, np.asarray(t)) and np.array_equal(gv, np.asarray(v))):
+                    raise Violation("C12:reader-waveforms", "get_waveforms(event_id=%d): antenna %d waveform %d "
+                                    "differs from the sequential pass" % (i, a, j))
+        self.count("probe.reader_level_access")
+        return ["reader_waveforms", n_rows]
+
     def _op_bad_access(self, op):
         n = self.n
         how = op["how"]
@@ -471,6 +504,8 @@ class C12Access(Machine):
         return ["bad_access", how]
 
     def finish(self):
+        self.count("sim.clock_span_s", int(self.clock.max_t - self.clock.min_t))
+        self.count("seam.file_opens", sum(self.disk.opens.values()))
         return self.ref_digest
 
     def simplify_config(self, cfg):
